@@ -2,6 +2,7 @@ package main
 
 import (
 	"fmt"
+	"regexp"
 	"strings"
 
 	"github.com/sdcio/yang-parser/data/datanode"
@@ -80,7 +81,12 @@ func encTypeOf(s string) encoding.EncType {
 
 // does the decoded tree conform to the schema (structure and values)?
 func conforms(sn schema.Node, n datanode.DataNode, path string) string {
+	seen := map[string]bool{}
 	for _, k := range n.YangDataChildren() {
+		if seen[k.YangDataName()] {
+			return path + "/" + k.YangDataName() + ": two nodes of one name"
+		}
+		seen[k.YangDataName()] = true
 		csn := sn.Child(k.YangDataName())
 		if csn == nil {
 			return path + "/" + k.YangDataName() + ": not in the schema"
@@ -232,7 +238,39 @@ func mutateEnc(r *Rng, s string) string {
 	if len(s) == 0 {
 		return s
 	}
-	switch r.Intn(9) {
+	switch r.Intn(11) {
+	case 9: // a whole XML element once more (as it is, or with another text), next to itself or at the end of its parent
+		if m := xmlLeafRe.FindAllStringIndex(s, -1); len(m) > 0 {
+			e := m[r.Intn(len(m))]
+			el := s[e[0]:e[1]]
+			if r.Chance(50) {
+				if a, b := strings.Index(el, ">"), strings.LastIndex(el, "<"); a >= 0 && b > a {
+					el = el[:a+1] + pick(r, []string{"zz", "1", "", "true"}) + el[b:]
+				}
+			}
+			if r.Chance(50) {
+				return s[:e[1]] + el + s[e[1]:]
+			}
+			if j := strings.Index(s[e[1]:], "</"); j >= 0 {
+				return s[:e[1]+j] + el + s[e[1]+j:]
+			}
+		}
+		return s
+	case 10: // a JSON member once more under its other name: qualified with the module / unqualified
+		if m := jsonMemberRe.FindAllStringSubmatchIndex(s, -1); len(m) > 0 {
+			e := m[r.Intn(len(m))]
+			name := s[e[2]:e[3]]
+			other := "m:" + name
+			if i := strings.Index(name, ":"); i >= 0 {
+				other = name[i+1:]
+			}
+			val := s[e[4]:e[5]]
+			if r.Chance(50) {
+				val = pick(r, []string{"\"zz\"", "1", "null", "true"})
+			}
+			return s[:e[0]] + "\"" + other + "\":" + val + "," + s[e[0]:]
+		}
+		return s
 	case 0: // delete a byte
 		i := r.Intn(len(s))
 		return s[:i] + s[i+1:]
@@ -271,6 +309,9 @@ func mutateEnc(r *Rng, s string) string {
 		return s + pick(r, []string{" ", "}", "x", "\n{}", "<a/>"})
 	}
 }
+
+var xmlLeafRe = regexp.MustCompile(`<([A-Za-z_][A-Za-z0-9_.-]*)( [^<>]*)?>[^<>]*</[A-Za-z_][A-Za-z0-9_.-]*>`)
+var jsonMemberRe = regexp.MustCompile(`"([A-Za-z_][A-Za-z0-9_.:-]*)":("[^"]*"|[0-9.eE+-]+|true|false|null|\[null\])`)
 
 func replaceValue(r *Rng, s string) string {
 	// find a ':' (JSON) or '>' (XML) and replace what follows up to the next delimiter
